@@ -303,6 +303,20 @@ def check_case(ctx, case, count=True):
                   and np.all(ten[2][0][exp3 == 0] == 0) and np.all(ten[3][0][exp4 == 0] == 0))
             if not ok:
                 ctx.mismatch("tensor-diag", case, {"impl": [a.tolist() for a in ten], "model": mcoef})
+            # ---- the property on the tensor entry point itself (seed C35h: a c4 of the x/y axes divided by the z axis'
+            # damping factor was only visible as a model mismatch): diagonal of the 9-component coefficients -> chi
+            tst = [np.asarray(ten[0], dtype=float), np.asarray(ten[1], dtype=float),
+                   np.asarray(ten[2], dtype=float)[:, ::4], np.asarray(ten[3], dtype=float)[:, ::4]]
+            for w in freqs:
+                tchi = chi_impl(tst[0], tst[1], tst[2], tst[3], w, dt,
+                                use_c4=not (kind in ("lor", "dru") and case.get("c4none")))
+                for ax in range(3):
+                    ana = analytic(kind, tuple(axes[ax]), w)
+                    dd, _, _ = denom_of(kind, tuple(axes[ax]), w)
+                    ctx.impl_property_evals += 1
+                    if dd * dt * dt >= 1e-4 and not abs(tchi[ax] - ana) <= 1e-9 * max(abs(ana), 1e-300) and not viol:
+                        viol = (f"compute_pole_coefficients_tensor: diagonal coefficients give chi = {complex(tchi[ax])!r} but the "
+                                f"declared {kind} pole model gives {ana!r} at omega*dt={w * dt:.4g} (axis {ax})")
         if accepted:
             c1, c2, c3, c4 = got
             # ---- Jury / roots on the real coefficients (only promised for non-negative damping)
